@@ -492,7 +492,12 @@ inline int worker_main(int argc, char** argv, const Engine& e)
                 }
             }
             else
+            {
+                // a plan that ended without a verdict for a reason of the harness's own (no reference, unknown op,
+                // bad frame specification ...) must not pass for a clean run: counted, the orchestrator exits 2
+                if(r.signature.rfind("HARNESS", 0) == 0) stats().count("harness." + r.signature);
                 printf("R %" PRIu64 " %016" PRIx64 "\n", seed, r.fingerprint);
+            }
             fflush(stdout);
         }
         print_stats();
